@@ -1833,7 +1833,7 @@ fn k_checks() -> Vec<Box<dyn Check>> {
         monitors: || vec![Box::new(crate::ksim::c06::C06)],
         full_select_obs: false,
         quick_runs: 20_000,
-        thorough_runs: 2_000_000,
+        thorough_runs: 1_000_000,
         rule: "one run = one seeded timed history (20..300+ events, 1..3 links, both modes, configuration changed mid-history) of earned SRTLA ACKs with the global +1, raw ACK-rule calls with in-flight arguments up to i32::MAX, NAKs isolated and in bursts (< 1 s apart), time-based recovery at spacings from 0 ms to minutes and RTT velocities from negative to > 2, housekeeping ticks, mark_for_recovery / reconnect / REG3 / REG_ERR, from boundary and random starting windows. After every event: range, direction by event kind, fast-recovery entry/exit thresholds, 20000 after a tear-down, no change on a classic tick; overflow checks are on. Non-trivial = at least one ACK, NAK, recovery or tear-down event was judged; distinct = distinct event-log hashes among non-trivial runs",
         assumptions: &[
             "starting windows are written directly but only inside [1000, 60000]",
@@ -1849,7 +1849,7 @@ fn k_checks() -> Vec<Box<dyn Check>> {
         monitors: || vec![Box::new(crate::ksim::sel::C03::default())],
         full_select_obs: true,
         quick_runs: 6_000,
-        thorough_runs: 600_000,
+        thorough_runs: 200_000,
         rule: SEL_RULE_C03,
         assumptions: SEL_ASSUMPTIONS,
         probes: &["c03.decisions", "c03.decisions_with_gates_engaged", "c03.every_link_under_some_gate", "c03.single_usable_link"],
@@ -1861,7 +1861,7 @@ fn k_checks() -> Vec<Box<dyn Check>> {
         monitors: || vec![Box::new(crate::ksim::sel::C11::default())],
         full_select_obs: true,
         quick_runs: 6_000,
-        thorough_runs: 600_000,
+        thorough_runs: 200_000,
         rule: SEL_RULE_C11,
         assumptions: SEL_ASSUMPTIONS,
         probes: &["c11.decisions", "c11.switched", "c11.held_by_hysteresis", "c11.last_link_skipped", "c11.quality_gate_2pct", "c11.soft_cap_active", "c11.cap_exceeded_somewhere", "c11.warming_link_scored"],
@@ -1873,7 +1873,7 @@ fn k_checks() -> Vec<Box<dyn Check>> {
         monitors: || vec![Box::new(crate::ksim::sel::C12)],
         full_select_obs: true,
         quick_runs: 1_200,
-        thorough_runs: 600_000,
+        thorough_runs: 60_000,
         rule: SEL_RULE_C12,
         assumptions: SEL_ASSUMPTIONS,
         probes: &["c12.decisions", "c12.guard_state_moved", "c12.guard_off_decision", "c12.guard_off_with_history"],
@@ -1885,7 +1885,7 @@ fn k_checks() -> Vec<Box<dyn Check>> {
         monitors: || vec![Box::new(crate::ksim::sel::C13::default())],
         full_select_obs: true,
         quick_runs: 6_000,
-        thorough_runs: 600_000,
+        thorough_runs: 200_000,
         rule: SEL_RULE_C13,
         assumptions: SEL_ASSUMPTIONS,
         probes: &["c13.latch_engaged", "c13.latch_released", "c13.lapse_resets_run", "c13.pull_engaged", "c13.pull_released", "c13.escalated_from_pull", "c13.ceiling_below_floor", "c13.rtt_bound_window", "c13.ceiling_bound_window", "c13.latched_with_drained_backlog", "c13.dwell_in_progress"],
@@ -1897,7 +1897,7 @@ fn k_checks() -> Vec<Box<dyn Check>> {
         monitors: || vec![Box::new(crate::ksim::cc::C16::default())],
         full_select_obs: false,
         quick_runs: 20_000,
-        thorough_runs: 2_000_000,
+        thorough_runs: 1_000_000,
         rule: "one run = one seeded timed history (30..250 ticks, 1..3 links) for the real LinkCcController::tick_all over real connections whose RTT samples, cumulative byte and NAK counters and bitrate estimate follow a per-run regime (no loss, light loss, heavy loss, on/off loss, RTT inflation, RTT square wave) with zero / steady / 100x burst rates, ticks 1 ms to 10 s apart, links dropping out of and returning to the tick set, and counter resets after reconnect. After every tick, against the previous snapshot and the tick's inputs: bounds, floor until an RTT sample exists, a decrease only as x0.85 loss back-off (not below min(observed, previous), never raising) or one-shot x0.75 drain entry, after seeding growth <= 6 % and <= 2 x measured, loss latch set only after the reported loss average stayed > 0.55 at every tick for >= 4 s and cleared only at < 0.25. Non-trivial = at least one tick with an RTT sample was judged; distinct = distinct event-log hashes among non-trivial runs",
         assumptions: &[
             "cumulative byte and NAK counters and the bitrate estimate are written directly (measured quantities; monotone except across a reset)",
@@ -1913,7 +1913,7 @@ fn k_checks() -> Vec<Box<dyn Check>> {
         monitors: || vec![Box::new(crate::ksim::cc::C17::default())],
         full_select_obs: false,
         quick_runs: 20_000,
-        thorough_runs: 2_000_000,
+        thorough_runs: 1_200_000,
         rule: "one run = one seeded tick-by-tick history (30..220 ticks, 1..4 links) for the real WeakLinkFilter::classify with per-link bitrates that idle, starve and cross the 100 kbit/s bypass floor, RTTs with one-tick blips and sustained rises (queue-building via real RTT-tracker samples), links joining, leaving and being dropped from the tick set. A temporal monitor checks: never weak while disconnected or under the floor, a delay verdict only if the delay signal also held on the previous tick, share-weak runs never longer than 15 and followed by three forced not-weak ticks, entering low-share only below 1/4 of fair share, leaving only at >= 3/4 minus one permille. Non-trivial = at least one connected link was classified above the floor; distinct = distinct event-log hashes among non-trivial runs",
         assumptions: &[
             "the bitrate estimate is written directly (measured quantity); RTT state comes from real update_estimate calls",
@@ -1978,7 +1978,7 @@ fn l_checks() -> Vec<Box<dyn Check>> {
         post: Some(c04_post),
         monitors: || vec![Box::new(crate::mon::c04::C04::new())],
         quick_runs: 400,
-        thorough_runs: 20_000,
+        thorough_runs: 12_000,
         rule: "one run = one seeded closed-loop plan on 2..4 uplinks with black holes, link loss, short timeouts, receiver restarts, mode/quality/guard/timeout changes at run time, retransmit-flagged data and critical windows all along the stream. At every routing decision after the session is established the link that received the unique copy is judged by an independent eligibility model (REG3 since last reset; heard within the timeout in force by the monitor's own stamps; not stall-gated in this decision). Non-trivial = at least one routed datagram while an ineligible-but-connected link existed or a must-land packet was routed; distinct = distinct event-log hashes among non-trivial runs",
         assumptions: &[
             "the stall-gated flag read back immediately after a routing decision is the one that decision computed",
